@@ -31,6 +31,23 @@ where
     cover!(o.check.is_some() && o.check.unwrap() > p0, "matched and advanced");
     cover!(o.check.is_none(), "rejected");
 }
+/// Thorough tier: the same step over P - 1 input positions (P = 5: four positions). mode 0: can fail and advance,
+/// 1: cannot fail, 2: consumes nothing.
+pub fn absn<'i, const P: usize, T: TypedNode<'i, R>, RT: RefNode>(min_adv: [u8; ABS_IDS], d0: usize, mode: u8)
+where
+    'static: 'i,
+{
+    abs_init_p::<P>(min_adv);
+    let n = P - 1;
+    let p0 = nd::usize();
+    nd::assume(p0 <= n);
+    let (o, _) = pc_ref::<T, RT>(&XXXXX[..n], p0, d0);
+    let adv = o.check.is_some() && o.check.unwrap() > p0;
+    let stay = o.check == Some(p0);
+    let rej = o.check.is_none();
+    cover!(if mode == 2 { stay } else { adv }, "accepted (advancing, where the node can advance)");
+    cover!(if mode == 1 { stay } else { rej }, "rejected (matched nothing, for nodes that cannot fail)");
+}
 /// same for nodes that cannot fail
 pub fn abs3nf<'i, T: TypedNode<'i, R>, RT: RefNode>(min_adv: [u8; ABS_IDS], d0: usize)
 where
